@@ -495,10 +495,11 @@ pub mod c10_query {
     use super::super::hybrid::Query as HybridQuery;
     use crate::{
         error::BoxError,
-        ff::boolean_array::BA32,
+        ff::{U128Conversions, boolean_array::BA32},
         helpers::{BodyStream, query::{HybridQueryParams, QuerySize}},
         ipa_verif::{c10::{QueryReq, Reg, parse_query_req, query_err_class}, proto::*},
-        test_fixture::{TestWorld, TestWorldConfig, WithShards},
+        secret_sharing::replicated::semi_honest::AdditiveShare as Replicated,
+        test_fixture::{Reconstruct, TestWorld, TestWorldConfig, WithShards},
     };
 
     /// seconds granted to helpers that must fail on their input / to a complete protocol run
@@ -525,9 +526,10 @@ pub mod c10_query {
                 ));
                 let params = HybridQueryParams { with_dp: 0, ..Default::default() };
                 let r = HybridQuery::<_, BA32, Reg>::new(params, kr).execute(ctx, size, body).await;
-                (h, r.map(|v| v.len()))
+                (h, r)
             });
         }
+        let mut results: [Option<Vec<Replicated<BA32>>>; 3] = Default::default();
         let some_malformed = labels.contains(&b'm');
         let awaited: Vec<bool> = labels.iter().map(|l| !some_malformed || *l == b'm').collect();
         let deadline = tokio::time::Instant::now() + Duration::from_secs(if some_malformed { T_ERR } else { T_RUN });
@@ -536,21 +538,32 @@ pub mod c10_query {
             match tokio::time::timeout_at(deadline, futs.next()).await {
                 Ok(Some((h, r))) => {
                     outcome[h] = Some(match r {
-                        Ok(256) => "ok".to_string(),
-                        Ok(n) => format!("ok-but-{n}-buckets"),
+                        Ok(v) if v.len() == 256 => {
+                            results[h] = Some(v);
+                            "ok".to_string()
+                        }
+                        Ok(v) => format!("ok-but-{}-buckets", v.len()),
                         Err(e) => query_err_class(&e),
                     });
                 }
                 Ok(None) | Err(_) => break,
             }
         }
-        (0..3)
+        let mut resp = (0..3)
             .map(|h| {
                 let o = if !awaited[h] { "peer".to_string() } else { outcome[h].clone().unwrap_or_else(|| "timeout".to_string()) };
                 format!("H{}={o}", h + 1)
             })
             .collect::<Vec<_>>()
-            .join(" ")
+            .join(" ");
+        if let [Some(a), Some(b), Some(c)] = results {
+            // all three completed: the reconstructed histogram, non-zero buckets only
+            let hist: Vec<BA32> = [a, b, c].reconstruct();
+            let nz: Vec<String> = hist.iter().enumerate().filter(|(_, x)| x.as_u128() != 0).map(|(i, x)| format!("{i}:{}", x.as_u128())).collect();
+            resp.push_str(" hist=");
+            resp.push_str(&if nz.is_empty() { "-".to_string() } else { nz.join(",") });
+        }
+        resp
     }
 
     pub fn exec(req: &str) -> String {
